@@ -84,7 +84,7 @@ class C18(Check):
         modes = ["centres", "index", "generate"]
         i = 0
         # stratified: every (source, mode) gets multi-chunk inputs at and around chunk multiples
-        for rep in range(1 if q else 30):
+        for rep in range(2 if q else 40):
             for source in kinds:
                 for mode in modes:
                     if source == "random" and mode == "index":
@@ -95,7 +95,7 @@ class C18(Check):
                         i += 1
                         yield dict(seed=seed * 100003 + i, source=source, n=n + (int(rng.integers(0, 3)) * c if rep else 0), chunk=c,
                                    mode=mode, workers=1 if i % 3 else 4, group=str(rng.choice(["smaller", "equal", "larger", "one"])))
-        for j in range(40 if q else 3000):
+        for j in range(160 if q else 6000):
             c = int(rng.choice([1, 2, 3, 7, 100]))
             n = int(rng.choice([1, 2, max(1, c - 1), c, c + 1, 2 * c - 1, 2 * c, 2 * c + 1, 97, 3 * c + 1]))
             n = max(n, 1)
